@@ -542,8 +542,16 @@ class ExprMixin(Core):
                 self.oblige(st, "safety:in", z3.And(self.is_kind(container, ["VDict"]), self.is_kind(item, ["VStr"])))
             return self.dict_index(container.t, self.str_term(item)) >= 0
         if isinstance(container, T) and container.kind in ("list", "tuple"):
-            # small literal sequences only
-            raise Unsupported("`in` on symbolic sequence")
+            # x in s  <=>  some position of s holds an element that == x (Python's `in` also accepts identical
+            # elements, which == already covers for everything but NaN: floats are reals here, A3)
+            sq = container.t
+            j = z3.Int(fresh_name("inj"))
+            el = T("V", sq[j])
+            eq = self.py_eq(item, el, st) if st.mode == "code" else self.struct_eq(item, el)
+            if st.mode == "code" and isinstance(item, T) and item.kind == "V":
+                # enum members compare by identity (spec.pysem.py_eq, enum case), stated inline so that it is usable under the binder
+                eq = z3.If(z3.Or(self.is_kind(item, ["VEnum"]), self.is_kind(el, ["VEnum"])), item.t == el.t, eq)
+            return z3.Exists([j], z3.And(j >= 0, j < z3.Length(sq), eq))
         raise Unsupported("`in` container")
 
     # ---------------- python == -----------------
@@ -659,6 +667,9 @@ class ExprMixin(Core):
             alts.append((U.is_("VExc", t), U.acc("xtoken", t)))
         if attr in ("start", "stop", "step"):
             alts.append((U.is_("VSlice", t), U.acc("s" + attr, t)))
+        if attr == "name":
+            # Enum.name: some string determined by the member (only ever used to build messages)
+            alts.append((U.is_("VEnum", t), U.con("VStr", z3.Function("enum_name", U.V, z3.StringSort())(t))))
         if attr in ("arg_types", "return_type"):
             alts.append((U.is_("VUserFunc", t), U.acc("uf_" + attr, t)))
         for c in U.obj_classes:
